@@ -42,6 +42,8 @@ class Problem:
         self.eff = gen.effective(self.cfg)
         self.shapes = [list(s) for s in case["shapes"]]
         self.dt = gen.DT[self.cfg["pdtype"]]
+        # optional per-parameter dtypes (a param group may mix precisions); self.dt stays the group's nominal dtype
+        self.dts = [gen.DT[x] for x in (case.get("pdtypes") or [self.cfg["pdtype"]] * len(case["shapes"]))]
         self.flavour = case["flavour"]
         self.R, self.S = case.get("R", 1), case.get("S", 1)
         self.W = self.R * self.S if self.flavour in ("hsdp", "hybrid_shard") else (self.S if self.flavour in ("fsdp", "fully_shard") else self.R)
@@ -49,7 +51,7 @@ class Problem:
         self.group_size = (self.R if self.G == -1 else self.G) if self.flavour in ("ddp", "hsdp", "hybrid_shard") else 1
         self.comm_dtype = COMM[case.get("comm_dtype", "default")]
         self.comm_params = bool(case.get("comm_params", False))
-        self.full = [gen.make_tensor(s, "gauss", case.get("pseed", 0) * 131 + i, self.cfg.get("gscale", 1.0), self.dt) for i, s in enumerate(self.shapes)]
+        self.full = [gen.make_tensor(s, "gauss", case.get("pseed", 0) * 131 + i, self.cfg.get("gscale", 1.0), self.dts[i]) for i, s in enumerate(self.shapes)]
         self.steps = [dict(s) for s in case["steps"]]
         self.ranges = self._flat_ranges() if self.flavour in ("fsdp", "hsdp") else None
 
@@ -97,7 +99,8 @@ class Problem:
         return t[arg[0]:arg[1]].clone()  # order-0 shapes are not generated for dim-0 sharded flavours
 
     def grads(self, step: dict) -> list[torch.Tensor | None]:
-        return gen.step_grads(self.shapes, step, self.dt)
+        gs = gen.step_grads(self.shapes, step, torch.float64)
+        return [None if g is None else g.to(self.dts[i]) for i, g in enumerate(gs)]
 
     # -- the serial meaning of shard s: list of (param index, sub-tensor view spec) whose concatenation is the local data
     def serial_units(self, s: int) -> list[tuple[int, Any]]:
@@ -154,7 +157,7 @@ class Problem:
         float32 (0-d type promotion with the float32 bias-correction scalars), so a communication dtype narrower than float32 rounds it even
         though it is 'at least as precise as the parameters'.  Such cases are compared with the rounding-shim oracle and counted as excluded."""
         return (self.flavour in ("ddp", "hsdp", "hybrid_shard") and not self.eff["merge"] and any(len(s) == 0 for s in self.shapes)
-                and self.dt in (torch.bfloat16, torch.float16) and self.comm_dtype in (torch.bfloat16, torch.float16))
+                and any(d_ in (torch.bfloat16, torch.float16) for d_ in self.dts) and self.comm_dtype in (torch.bfloat16, torch.float16))
 
     def every_rank_owns_a_block(self) -> bool:
         for s in range(self.S):
@@ -213,7 +216,7 @@ def serial_snapshots(pb: Problem, s: int) -> tuple[list[list[torch.Tensor]] | No
     params = [torch.nn.Parameter(pb.unit_tensor(pb.full[i], (i, spec))) for (i, spec) in units]
     cd, pdt, cp = pb.comm_dtype, pb.dt, pb.comm_params
     comm = pb.flavour in ("ddp", "hsdp", "hybrid_shard")
-    exact = (not comm) or (_at_least_as_precise(cd, pdt) and not (pb.f10_class() and pb.case.get("probe") != "F10"))
+    exact = (not comm) or (all(_at_least_as_precise(cd, d_) for d_ in pb.dts) and not (pb.f10_class() and pb.case.get("probe") != "F10"))
 
     def shim(self: Any, masked_blocked_search_directions: tuple) -> None:
         if cp:
@@ -264,11 +267,11 @@ def local_from_units(pb: Problem, s: int, unit_tensors: list[torch.Tensor]) -> l
         if kind == "full":
             out.append(parts[0].reshape(pb.shapes[i]))
         elif kind == "flat":
-            out.append(torch.cat(parts) if parts else torch.empty(0, dtype=pb.dt))
+            out.append(torch.cat(parts) if parts else torch.empty(0, dtype=pb.dts[i]))
         else:
             a, b = arg
             shp = [b - a] + pb.shapes[i][1:] if pb.shapes[i] else []
-            out.append(parts[0].reshape(shp) if parts else torch.empty([0] + pb.shapes[i][1:], dtype=pb.dt))
+            out.append(parts[0].reshape(shp) if parts else torch.empty([0] + pb.shapes[i][1:], dtype=pb.dts[i]))
     return out
 
 
@@ -503,8 +506,10 @@ def world_classes(pb: Problem, tr: dict) -> list[str]:
     if pb.flavour in ("ddp", "hsdp", "hybrid_shard"):
         cl.append("communicate_params" if pb.comm_params else "communicate_updates")
         cl.append("comm_" + str(pb.comm_dtype).split(".")[-1])
-        if not _at_least_as_precise(pb.comm_dtype, pb.dt):
+        if not all(_at_least_as_precise(pb.comm_dtype, d_) for d_ in pb.dts):
             cl.append("reduced_precision")
+        if len(set(pb.dts)) > 1:
+            cl.append("mixed_param_dtypes")
         if 1 < pb.group_size < pb.R:
             cl.append("group_between_1_and_W")
     prev = None
